@@ -138,8 +138,11 @@ def obs_encrypt(r, jwk, draws, enc="A128GCM"):
     except RefError as e:
         return ("encrypted-but-reference-cannot-decrypt", repr(e)[:80])
     t = rjwe.parse(tok)
-    iv_fresh = any(t["iv"] in d for d in draws) and len(t["iv"]) == ENC[enc][2]
-    return ("encrypted", pt == PT, "iv-drawn-by-this-call" if iv_fresh else "IV-NOT-FROM-THIS-CALL", tuple(sorted(k for k in p if k not in ("epk", "p2s", "iv", "tag"))))
+    IV_LOG.append(t["iv"])
+    return ("encrypted", pt == PT, "iv-size-ok" if len(t["iv"]) == ENC[enc][2] else "IV-SIZE-WRONG", tuple(sorted(k for k in p if k not in ("epk", "p2s", "iv", "tag"))))
+
+
+IV_LOG = []     # IVs of every encryption of the current execution / history (per-call freshness is judged on the values)
 
 
 def obs_decrypt(r):
@@ -251,6 +254,8 @@ class _Draws:
 class SeqModel:
     fresh_import = True
 
+    replay_id = {"cls": "SeqModel"}
+
     def __init__(self, names):
         self.MENU = list(names)
         self._base = {}
@@ -263,7 +268,10 @@ class SeqModel:
 
     def apply(self, st, op):
         st["n"] += 1
-        return run_op(op, st["fx"], f"call{st['n']}")
+        del IV_LOG[:]
+        out = run_op(op, st["fx"], f"call{st['n']}")
+        st["ivs"] = st.get("ivs", []) + list(IV_LOG)
+        return out
 
     def canon(self, st):
         fx = st["fx"]
@@ -281,12 +289,16 @@ class SeqModel:
 
     def check(self, hist, op, obs, st):
         base = self.baseline(op)
-        if isinstance(obs, tuple) and obs and obs[0] == "encrypted" and obs[2] != "iv-drawn-by-this-call":
-            return [viol(f"an encryption does not use an IV drawn for this call [{op}]", f"after {list(hist)}: {obs}")]
+        if len(set(st["ivs"])) != len(st["ivs"]):
+            return [viol(f"an encryption repeats the IV of an earlier call [{op}]", f"after {list(hist)}: {[v.hex() for v in st['ivs']]}")]
         if obs != base:
             return [viol(f"outcome of a call depends on earlier calls on shared objects [{op}]",
                          f"after {list(hist)} the call observed {str(obs)[:200]}; as the first call on fresh objects it observes {str(base)[:200]}")]
         return []
+
+
+def make_model(desc):
+    return SeqModel(list(make_ops()))
 
 
 def sequential(tier):
@@ -374,6 +386,7 @@ def h_pairs(ctx):
     names = [CONC_MENU[i] for i in combo]
     base = [iso(n) for n in names]
     fx = fixtures(sorted({x for n in names for x in NEEDS[n]}))
+    del IV_LOG[:]
     src = os.path.join(os.environ.get("VERIF_REPO", "/repo"), "src", "joserfc")
     opfiles = ("rfc7517/models.py", "_keys.py", "rfc7515/model.py", "rfc7516/models.py") if (config.thorough() and ctx.choose("granularity", ["line", "opcode"]) == "opcode") else ()
     sch = Scheduler(ctx, src, opcode_files=opfiles)
@@ -406,15 +419,16 @@ def h_pairs(ctx):
     for msg in final_state(fx):
         vs.append(viol("shared object left in a state no sequential order produces", f"{names}: {msg}"))
     # per-call fresh IV, also across the two concurrent calls
-    for o in [r[1] for r in results if r[0] and isinstance(r[1], tuple) and r[1] and r[1][0] == "encrypted"]:
-        if o[2] != "iv-drawn-by-this-call":
-            vs.append(viol("an encryption does not use an IV drawn for this call", f"{names}: {o}"))
+    def iv_check(when):
+        if len(set(IV_LOG)) != len(IV_LOG):
+            vs.append(viol(f"two encryptions sharing an algorithm object used the same IV ({when})", f"{names}: {[v.hex() for v in IV_LOG]}"))
+    iv_check("concurrent calls")
     # nothing may be left behind: the same operations, run again one after the other on the same shared objects, behave as in isolation
     if not vs:
         for i, n in enumerate(names):
-            rseam.bind_thread("post")
+            rseam.bind_thread(f"post{i}")     # its own labelled stream, like every other call
             try:
-                again = call(lambda n=n: ops()[n](fx, _ThreadDraws("post")))
+                again = call(lambda n=n: ops()[n](fx, _ThreadDraws(f"post{i}")))
             finally:
                 rseam.unbind_thread()
             obs = again.value if again.ok else ("raised", type(again.exc).__name__)
@@ -423,6 +437,7 @@ def h_pairs(ctx):
                                f"after the schedule of {names} ({npre} preemption(s), switches at {_switches(sch.trace)[:6]}) a plain sequential call observed {str(obs)[:160]}, in isolation {str(base[i])[:160]}"))
     pick_seam.uninstall()
     rseam.uninstall()
+    iv_check("concurrent calls followed by sequential ones")
     return Outcome(f"{len(names)}T:pre{npre}:{'ok' if not vs else 'BAD'}", vs, nontrivial=(combo, tuple(ctx.choices[3:])))
 
 
